@@ -1,5 +1,119 @@
+import Casket.Model.Exec
+import Casket.Spec.Exec
+import Casket.Generated.Directives
 import Driver.Proto
-/- Streams of C09 (stub: not built yet). -/
+/-
+Streams of C09.
+
+  c09.pairs       scenario written-order       out = the probe's observation (status, or 1/0)
+  c09.directives  (one dummy field)            out = casket.ValidDirectives("http") joined by ','
+  c09.group       lines perm                   lines: ','-separated  <dir>:<hex token>|<hex token>|…
+                                               perm : ','-separated indices into lines (the reordered block)
+        out = groups of the block as written '#' groups of the reordered block;
+              groups = ';'-separated <dir>=<hex token>|… sorted by directive name
+  c09.perm        lines perm                   lines: ','-separated  <dir>:<hex of the line's text>
+        out = handler chain of the block as written (outside in, ',') '#' chain of the reordered block
+              '#' equal | differ:<request>
+-/
 namespace Driver.C09
-def streams : List Driver.Stream := []
+open Casket.Exec Casket.ExecSpec
+
+def D : List Dir := Casket.Generated.directives
+
+def hexStr (s : String) : Option String := do
+  let bs ← Driver.unhex s
+  -- token texts of the generated cases are ASCII
+  pure (String.ofList (bs.map fun b => Char.ofNat b.toNat))
+
+def strHex (s : String) : String := Driver.hex (s.toList.map fun c => UInt8.ofNat c.toNat)
+
+def parseLine (withTokens : Bool) (s : String) : Option Line :=
+  match s.splitOn ":" with
+  | [d, t] =>
+    if withTokens then do
+      let toks ← (if t = "" then some [] else (t.splitOn "|").mapM hexStr)
+      pure { dir := d, tokens := toks }
+    else some { dir := d, tokens := [t] }
+  | _ => none
+
+def parseCase (withTokens : Bool) : List String → Option (List Line × List Line)
+  | [ls, perm] => do
+    let ls ← (if ls = "" then some [] else (ls.splitOn ",").mapM (parseLine withTokens))
+    let perm ← Driver.natList perm
+    let ls' ← perm.mapM fun i => ls[i]?
+    if perm.length = ls.length then pure (ls, ls') else none
+  | _ => none
+
+def insertSorted (p : Dir × List String) : List (Dir × List String) → List (Dir × List String)
+  | [] => [p]
+  | q :: rest => if p.1 < q.1 then p :: q :: rest else q :: insertSorted p rest
+
+def showGroups (m : TokMap) : String :=
+  let sorted := m.foldl (fun acc p => insertSorted p acc) []
+  ";".intercalate (sorted.map fun p => p.1 ++ "=" ++ "|".intercalate (p.2.map strHex))
+
+def groupModel (f : List String) : String :=
+  match parseCase true f with
+  | none => "bad-case"
+  | some (ls, ls') => showGroups (parseLines ls) ++ "#" ++ showGroups (parseLines ls')
+
+def parseGroups (s : String) : Option Groups :=
+  if s = "" then some [] else (s.splitOn ";").mapM fun e =>
+    match e.splitOn "=" with
+    | [d, t] => do
+      let toks ← (if t = "" then some [] else (t.splitOn "|").mapM hexStr)
+      pure (d, toks)
+    | _ => none
+
+def groupJudge (f : List String) (out : String) : String :=
+  match parseCase true f, out.splitOn "#" with
+  | some (ls, ls'), [a, b] =>
+    if !stablePerm ls ls' then "bad:bad-case:the reordering moves lines of one directive past each other" else
+    match parseGroups a, parseGroups b with
+    | some g, some g' => groupVerdict (ls.map (·.dir)) g g'
+    | _, _ => "bad:unparsable:" ++ out
+  | _, _ => "bad:unparsable:" ++ out
+
+def permModel (f : List String) : String :=
+  match parseCase false f with
+  | none => "bad-case"
+  | some (ls, ls') => ",".intercalate (chainOf D ls) ++ "#" ++ ",".intercalate (chainOf D ls') ++ "#equal"
+
+def parseChain (s : String) : List Dir := if s = "" then [] else s.splitOn ","
+
+def permJudge (f : List String) (out : String) : String :=
+  match parseCase false f, out.splitOn "#" with
+  | some (ls, ls'), [a, b, r] =>
+    if !stablePerm ls ls' then "bad:bad-case:the reordering moves lines of one directive past each other"
+    else verdict D (parseChain a) (parseChain b) (r == "equal")
+  | _, _ => "bad:unparsable:" ++ out
+
+def directivesModel (_ : List String) : String := ",".intercalate D
+
+def directivesJudge (_ : List String) (out : String) : String :=
+  if out = ",".intercalate D then "ok"
+  else "bad:list-differs:casket.ValidDirectives(\"http\") is not the list in plugin.go"
+
+def findScenario (f : List String) : Option Scenario :=
+  match f with
+  | [name, _] => scenarios.find? fun s => s.name == name
+  | _ => none
+
+def pairsModel (f : List String) : String :=
+  match findScenario f with
+  | some s => pairPrediction D s
+  | none => "bad-case"
+
+def pairsJudge (f : List String) (out : String) : String :=
+  match findScenario f with
+  | some s => pairVerdict s out
+  | none => "bad:unparsable:case"
+
+def streams : List Driver.Stream := [
+  { name := "c09.pairs", model := pairsModel, judge := pairsJudge },
+  { name := "c09.directives", model := directivesModel, judge := directivesJudge },
+  { name := "c09.group", model := groupModel, judge := groupJudge },
+  { name := "c09.perm", model := permModel, judge := permJudge }
+]
+
 end Driver.C09
